@@ -510,6 +510,7 @@ def make(model, cfg=None, mode="solve", select=("C01", "C02"), order=None, objec
         if ghost:
             ghost.install()
         sols = []
+        kept = []
         best = None
         stats = None
         reg_lens = (len(P.COMPUTE_DOMAINS_FCTS), len(P.GET_TRIGGERS_FCTS), len(P.GET_COMPLEXITY_FCTS), len(H.DOM_HEURISTIC_FCTS), len(H.VAR_HEURISTIC_FCTS), len(CA.CONSISTENCY_ALG_FCTS))
@@ -521,6 +522,7 @@ def make(model, cfg=None, mode="solve", select=("C01", "C02"), order=None, objec
             if mode == "solve":
                 for s in solver.solve():
                     sols.append(s.tolist())
+                    kept.append(s)  # the objects handed to the caller: what they hold must not change afterwards
                     if len(sols) > max_sols:
                         report("C02", "more-solutions-than-assignments", None, count=len(sols))
                         return
@@ -574,6 +576,11 @@ def make(model, cfg=None, mode="solve", select=("C01", "C02"), order=None, objec
                 eprobe.remove()
             for lst, n in zip((P.COMPUTE_DOMAINS_FCTS, P.GET_TRIGGERS_FCTS, P.GET_COMPLEXITY_FCTS, H.DOM_HEURISTIC_FCTS, H.VAR_HEURISTIC_FCTS, CA.CONSISTENCY_ALG_FCTS), reg_lens):
                 del lst[n:]
+        # C01: a solution handed to the caller keeps its value while the enumeration goes on (no view on the solver's own arrays)
+        if kept and "C01" in select:
+            ch = OR([as_z3int(a) != as_z3int(b) for arr, snap in zip(kept, sols) for a, b in zip(arr.tolist(), snap)])
+            if E.query(ch):
+                report("C01", "yielded-solution-changed-afterwards", E.model())
         opt_dir = {"minimize": "min", "minimize_q": "min", "maximize": "max", "maximize_q": "max"}.get(mode)
         enum_mode = mode in ("solve", "solve_q")
         if not enum_mode:
